@@ -103,7 +103,7 @@ def make_case(index, rng, tier):
         at = round(rng.uniform(win[0], max(win[0] + 0.01, win[1])), 3)
         return {"family": fam, "kind": kind, "graceful_timeout": gt, "sig": sig, "clients": clients, "sig_at": at,
                 "wconn": rng.choice([1, 2, 10]) if kind in ("gevent", "eventlet") else 10,
-                "sig_tick": rng.randrange(1, 120) if rng.randrange(3) == 0 else None, "keepalive": rng.choice([1, 2, 3]),
+                "sig_tick": rng.randrange(1, 120) if rng.randrange(3) == 0 else None, "keepalive": rng.choice([1, 2, 3, 5]),
                 "binds": rng.choice([1, 1, 2]),
                 "threads": rng.randrange(1, 3), "buggify": {"pyticks": rng.randrange(3) == 0, "short_recv": rng.randrange(3) == 0}}
     if fam == "master":
@@ -180,6 +180,12 @@ def judge_wire(res, case, clients, specs, fam, ctxf):
     never another message (an error page) spliced into it."""
     piece = b"0123456789"
     for c, spec in zip(clients, specs):
+        extra = getattr(c, "trailing", b"")
+        nreq = "".join(o[1] for o in spec["ops"] if o[0] == "send").count("\r\n\r\n")
+        if extra and c.responses and all(r["complete"] for r in c.responses) and len(c.responses) >= nreq:
+            res.violate("C04:%s:%s:unsolicited-response:%s" % (fam, case.get("kind", "stub"), case["sig"]),
+                        "client %s had received a complete response to each of its %d request(s) and was idle on the kept-alive connection; "
+                        "before closing it the server wrote %d more bytes: %r; %s" % (c.name, nreq, len(extra), extra[:80], ctxf()))
         first_line = "".join(o[1] for o in spec["ops"] if o[0] == "send").split("\r\n")[0]
         path = first_line.split(" ")[1] if first_line.count(" ") >= 2 else "/"
         if not path.startswith("/slowbody/") or not c.responses:
